@@ -77,6 +77,9 @@ def plan(tier, seed):
         out.append({"slice": "single-family:P4x4", "mode": "single", "osh": osh, "ssh": ssh, "costs": core + cheap_hgt + uneven})
     for osh, ssh in spaces.shape_pairs(5, 3, min_obj=5):
         out.append({"slice": "single-family:P5x3", "mode": "single", "osh": osh, "ssh": ssh, "costs": core[:3] + [core[7]] + cheap_hgt[:2]})
+    # the quick slices that the larger ones above do not subsume
+    keep = ("labelled:O4x3x{a,b}/hgt2", "labelled:O4chainx1x3s", "plain:P3x6", "single-family:P5x3/thl=superdtl")
+    out = [sh for sh in plan("quick", seed) if sh["slice"] in keep] + out      # cheap ones first
     return out
 
 
